@@ -323,3 +323,108 @@ Proof.
               (conj (proj1 GlueExamples.ex4_order_differs) (proj1 (proj2 GlueExamples.ex4_order_differs)))).
 Qed.
 Print Assumptions glue4_nonvacuous.
+
+(* ================================================================== 5. C05 <-> engine: the action sub-automaton refines ActionAuto
+   coq/engine/Action.v: a_mark, a_start, a_end, a_attempt, a_final over AIdle | ARun k | AFly k | ARet k o |
+   APend v n | ADone v n;  Auto.v dispatches an action's events to them with the action's durable cell and the
+   list of late Ends owed.  GlueAction.estep is that dispatch for one action, written out once (h_start: refused
+   while a late End is owed, else a_start with the durable cell; h_end: a_end, else a late End; h_write_act by
+   (status, n): a_mark / a_attempt / a_final, then put + owe; else the stutter rule);  erun r tr = Some s  <->
+   the engine's action handlers accept tr from AIdle for an action with r retries.
+   GlueAction.ev_of maps its events to ActionAuto's vocabulary by the rule of the C05 harness (ActImg.event):
+     XStart -> AStart,  XEnd o -> AEnd (inj o),  XWrite: (NotStarted,0) -> AWIdle, (Running,0) -> AWRun,
+     (Running,n>0) -> AWAtt n lastok, (Completed,n) -> AWDone true n, (Failed,n) -> AWDone false n, else AWBad.
+
+   OUTCOMES.  Engine: OOk | OErr | OPerm | OWrongType | OOverrun.  Attempts: OOverrun | ORet rs er (ten).
+   inj embeds the five (they are coq/attempts' own notations); proj : attempts -> engine classifies by control
+   flow.  What the engine alphabet loses: which response came with an error (ORet PGood PTrans / PPerm read as
+   OErr / OPerm), that a success may carry a nil response (ORet PNil PNoErr read as OOk), and the error next to a
+   wrong-typed response (ORet PBad _ all read as OWrongType) - five values, all about the RECORDED attempt
+   (c05_attempts_recorded), none about the retry loop: glue5_projection. *)
+From Coercion.Engine Require Event Action.
+From Coercion.Attempts Require ActionRun ActionAuto.
+From Coercion.Glue Require GlueAction GlueActionProofs GlueActionCor.
+
+(* THE REFINEMENT: every event sequence the engine's action handlers accept from AIdle is, mapped, accepted by
+   ActionAuto.arun with the same retries, in lock step (the final states correspond through abs: same phase with
+   outcomes embedded, image of the durable cell, same number of late Ends owed); complete runs are complete *)
+Theorem glue5_engine_action_refines :
+  forall (r : nat) (tr : list GlueAction.eev) (s : GlueAction.est),
+    GlueAction.erun r tr = Some s ->
+    ActionAuto.arun r (map GlueAction.ev_of tr) = Some (GlueActionProofs.abs s) /\
+    (GlueAction.efinal s = true -> ActionAuto.accepted r (map GlueAction.ev_of tr) = true).
+Proof. exact GlueActionProofs.engine_action_refines. Qed.
+Print Assumptions glue5_engine_action_refines.
+
+(* one step of it, from any state satisfying the invariant the dispatch maintains (durable cell of a form the
+   dispatch writes; ARun k only with k <= r; AFly only with no late End owed) *)
+Theorem glue5_lock_step :
+  forall (r : nat) (s : GlueAction.est) (e : GlueAction.eev) (s' : GlueAction.est),
+    GlueActionProofs.inv r s -> GlueAction.estep r s e = Some s' ->
+    ActionAuto.astep r (GlueActionProofs.abs s) (GlueAction.ev_of e) = Some (GlueActionProofs.abs s') /\
+    GlueActionProofs.inv r s'.
+Proof. exact GlueActionProofs.sim_step. Qed.
+Print Assumptions glue5_lock_step.
+
+(* hence c05_auto_trace (published, coq/attempts) holds of every such sequence, read on the engine's own
+   events; estarts tr = number of XStart in tr *)
+Theorem glue5_engine_action_c05 :
+  forall (r : nat) (tr : list GlueAction.eev) (s : GlueAction.est),
+    GlueAction.erun r tr = Some s ->
+    GlueActionCor.estarts tr <= r + 1 /\
+    (forall tr1 o tr2, tr = tr1 ++ GlueAction.XEnd o :: tr2 -> Event.outcome_final o = true ->
+       GlueActionCor.estarts tr2 = 0) /\
+    (forall tr1 tr2, tr = tr1 ++ GlueAction.XStart :: tr2 ->
+       (exists ok, In (GlueAction.XWrite Running 0 ok) tr1) /\
+       (GlueActionCor.estarts tr1 = 0 \/
+        exists ok, In (GlueAction.XWrite Running (GlueActionCor.estarts tr1) ok) tr1) /\
+       GlueActionCor.estarts tr1 <= r) /\
+    (forall tr1 st n ok tr2, tr = tr1 ++ GlueAction.XWrite st n ok :: tr2 -> st = Completed \/ st = Failed ->
+       n = GlueActionCor.estarts tr1 /\ GlueActionCor.estarts tr2 = 0).
+Proof. exact GlueActionCor.engine_action_c05. Qed.
+Print Assumptions glue5_engine_action_c05.
+
+(* the outcome projection: a retraction of inj that preserves is_ok, is_final and the successor phase *)
+Theorem glue5_projection :
+  (forall o, GlueAction.proj (GlueAction.inj o) = o) /\
+  (forall o, ActionRun.is_ok (GlueAction.inj o) = Event.outcome_ok o /\
+             ActionRun.is_final (GlueAction.inj o) = Event.outcome_final o) /\
+  (forall o, Event.outcome_ok (GlueAction.proj o) = ActionRun.is_ok o /\
+             Event.outcome_final (GlueAction.proj o) = ActionRun.is_final o) /\
+  (forall r k o, ActionAuto.after_ret r k o
+                 = GlueActionProofs.ph_of (Action.after_attempt r k (GlueAction.proj o))).
+Proof.
+  exact (conj GlueActionProofs.proj_inj
+        (conj (fun o => conj (GlueActionProofs.is_ok_inj o) (GlueActionProofs.is_final_inj o))
+        (conj (fun o => conj (GlueActionProofs.is_ok_proj o) (GlueActionProofs.is_final_proj o))
+              GlueActionProofs.after_ret_proj))).
+Qed.
+Print Assumptions glue5_projection.
+
+(* THE CONVERSE IS FALSE, and this is a disagreement between the two models: ActionAuto lets the next
+   invocation start while the End of an invocation the engine timed out is still owed; the engine's dispatch
+   (Auto.h_start: `if owes (s_late s) a then None`) refuses that Start.  The Go code does not wait for the
+   orphan (actions.go run(): `case <-ctx.Done(): return plugResp{timeout: true}`, then Backoff.Retry calls exec
+   again), so the order Start-before-late-End is possible in the code: ActionAuto is the faithful one, the
+   engine automaton is stricter than the code (never observed in > 11 600 traces: the orphan needs one wake-up,
+   the retry a vault write and a timer).  Witness, retries = 1:
+     W(Running,0) Start W(Running,1,false) Start End(Overrun) End(Ok) W(Running,2,true) W(Completed,2,true) *)
+Theorem glue5_converse_fails :
+  ActionAuto.accepted 1 (map GlueAction.ev_of GlueExamples.ex5_start_before_late_end) = true /\
+  GlueAction.erun 1 GlueExamples.ex5_start_before_late_end = None.
+Proof. exact (conj (proj1 GlueExamples.ex5_disagreement) (proj1 (proj2 GlueExamples.ex5_disagreement))). Qed.
+Print Assumptions glue5_converse_fails.
+
+(* instance: 2 retries; transient error, a timed-out attempt whose End arrives late, success, terminal write
+   twice: accepted by both with final phase ADone true 3; refused by both with 1 retry *)
+Theorem glue5_nonvacuous :
+  option_map GlueAction.efinal (GlueAction.erun 2 GlueExamples.ex5_trace) = Some true /\
+  ActionAuto.accepted 2 (map GlueAction.ev_of GlueExamples.ex5_trace) = true /\
+  GlueAction.erun 1 GlueExamples.ex5_trace = None /\
+  ActionAuto.arun 1 (map GlueAction.ev_of GlueExamples.ex5_trace) = None.
+Proof.
+  exact (conj (proj1 GlueExamples.ex5_accepted)
+        (conj (proj1 (proj2 (proj2 GlueExamples.ex5_accepted)))
+        (conj (proj1 GlueExamples.ex5_retries_exhausted) (proj2 GlueExamples.ex5_retries_exhausted)))).
+Qed.
+Print Assumptions glue5_nonvacuous.
